@@ -28,6 +28,9 @@ package uu
 // The heart of the round trip: decoding the four characters that encode three
 // bytes gives those three bytes back.
 //@ lemma{C15} groupRoundTrip(a byte, b byte, c byte): (dsext(uuchar(sext(a, b, c, 0)))<<2) + (dsext(uuchar(sext(a, b, c, 1)))>>4) == a && (dsext(uuchar(sext(a, b, c, 1)))<<4) + (dsext(uuchar(sext(a, b, c, 2)))>>2) == b && (dsext(uuchar(sext(a, b, c, 2)))<<6) + dsext(uuchar(sext(a, b, c, 3))) == c
+// Line level: if the characters of a line are the encoding of block k of x,
+// the line's specified data bytes are that block of x.
+//@ lemma{C15} lineRoundTrip(x []byte, line []byte, k int, i int): imp(0 <= k && 45*k < len(x) && 0 <= i && i < fill(len(x), k) && len(line) >= 1 + 4*((fill(len(x), k)+2)/3) && forall(j, 1 <= j && j <= 4*((fill(len(x), k)+2)/3), line[j] == encByte(x, 62*k + j)), dbyte(line, i) == x[45*k + i])
 // ...and the length character round-trips for every line length in use.
 //@ lemma{C15} lengthCharRoundTrip(m int): imp(1 <= m && m <= 45, int(dsext(byte(32 + m))) == m)
 
